@@ -10,7 +10,11 @@ import time
 from . import main as M
 
 VGEN = os.path.join(M.TARGET, "debug", "vgen")
-MS_TARGET = os.path.join(M.TARGET, "ms")
+def ms_target(tier):
+    # one target directory per tier: both tiers build a binary called msbin, and cargo does not
+    # re-link (re-uplift) a binary it considers fresh, so a shared directory would let one tier run
+    # the other tier's binary
+    return os.path.join(M.TARGET, "ms-" + tier)
 GEN_SEED = 1  # the corpus is fixed by the generator seed, the programs are recompiled on every run
 
 
@@ -37,7 +41,7 @@ def build_corpus(tier, first=0):
         if proc.returncode != 0:
             raise M.HarnessError("vgen failed: %s %s" % (proc.stdout[-1500:], proc.stderr[-1500:]))
         env = M.cargo_env()
-        env["CARGO_TARGET_DIR"] = MS_TARGET
+        env["CARGO_TARGET_DIR"] = ms_target(tier)
         t0 = time.time()
         logp = os.path.join(M.WORK, "build-batch-%s.log" % tier)
         with open(logp, "w") as f:
@@ -49,7 +53,7 @@ def build_corpus(tier, first=0):
                 for line in open(diag):
                     if line.startswith("DIAGNOSTIC"):
                         M.log(line.strip())
-            return os.path.join(MS_TARGET, "debug", "msbin"), exclude
+            return os.path.join(ms_target(tier), "debug", "msbin"), exclude
         text = open(logp, errors="replace").read()
         bad = sorted(set(re.findall(r"gen/(pg[a-z]+)\.(?:eql|driver)\.rs", text)))
         if not bad:
@@ -86,7 +90,7 @@ def build_comp_corpus(tier):
     out = os.path.join(M.WORK, "compcorpus-%s" % tier)
     count = 12 if tier == "quick" else 40
     env = M.cargo_env()
-    env["CARGO_TARGET_DIR"] = MS_TARGET
+    env["CARGO_TARGET_DIR"] = ms_target(tier)
     # skeleton first, so that cargo can tell us which eqlog-runtime rlib this workspace links
     if not os.path.exists(os.path.join(out, "pgc", "Cargo.toml")):
         os.makedirs(os.path.join(out, "pgc", "src"), exist_ok=True)
@@ -130,7 +134,7 @@ def build_comp_corpus(tier):
     if rc != 0:
         raise M.HarnessError("component batch build failed:\n" + "\n".join(open(logp, errors="replace").read().splitlines()[-40:]))
     M.log("[build] component corpus %s (%s) ok in %.1fs" % (tier, summary[-1] if summary else "?", time.time() - t0))
-    return os.path.join(MS_TARGET, "debug", "msbincomp")
+    return os.path.join(ms_target(tier), "debug", "msbincomp")
 
 
 def run_c19_dynamic(tier, seed):
